@@ -316,6 +316,11 @@ class RescaleToBounds(Reparameterisation):
             self.has_prime_prior = False
             logger.debug(f"Prime prior disabled for {self.name}")
 
+        if self.boundary_inversion and post_rescaling in ["logit", "log"]:
+            raise RuntimeError(
+                "Cannot use log or logit with boundary inversion"
+            )
+
         self.configure_pre_rescaling(pre_rescaling)
         self.configure_post_rescaling(post_rescaling)
 
